@@ -897,4 +897,71 @@ example : zzHalfMod_safe 64 [3, 2 ^ 64 - 1, 5] [2 ^ 64 - 1, 2, 2 ^ 64 - 1] = [1,
     ∧ zzHalfMod_safe 64 [4, 3, 5] [2 ^ 64 - 1, 2, 2 ^ 64 - 1] = [2 ^ 63 + 2, 2 ^ 63 + 1, 2]
     ∧ zzHalfMod_fast 64 [4, 3, 5] [2 ^ 64 - 1, 2, 2 ^ 64 - 1] = [2 ^ 63 + 2, 2 ^ 63 + 1, 2] := by decide
 
+/-! ## 6. the comparison mask of the SAFE loops (loop invariant)
+
+`maskStep` is folded over the (mod, result) words from low to high; after any number of
+steps `mask' = if m < c then 1 else if m = c then mask else 0` for the processed prefixes
+(`maskFold_spec` in LemmasAdd.lean, by induction).  Started with `mask = 1` this is the
+comparison `mod ≤ c`; the word results and the carry of the first pass are those of the
+plain adders. -/
+
+/-- first pass of SAFE(zzAddMod): words and carry of zzAdd, mask = [mod ≤ words]. -/
+theorem zzAddMod_safeLoop_spec (w : Nat) (a b mod : List Nat)
+    (ha : Wf w a) (hb : Wf w b) (hm : Wf w mod)
+    (hl1 : a.length = b.length) (hl2 : a.length = mod.length) :
+    (zzAddMod_safeLoop w a b mod 0 1).1 = (zzAdd w a b).1
+    ∧ (zzAddMod_safeLoop w a b mod 0 1).2.1 = (zzAdd w a b).2
+    ∧ (zzAddMod_safeLoop w a b mod 0 1).2.2
+        = (if val w mod ≤ val w (zzAdd w a b).1 then 1 else 0) := by
+  obtain ⟨_, _, h3, h4⟩ := zzAdd_spec w a b ha hb hl1
+  rw [zzAddMod_safeLoop_eq w a b mod 0 1 hl1 hl2]
+  exact ⟨rfl, rfl, maskFold_one w mod _ hm h3 (hl2.symm.trans h4.symm)⟩
+
+/-- first pass of SAFE(zzAddWMod). -/
+theorem zzAddWMod_safeLoop_spec (w : Nat) (a mod : List Nat) (x : Nat)
+    (ha : Wf w a) (hx : x < 2 ^ w) (hm : Wf w mod) (hl : a.length = mod.length) :
+    (zzAddWMod_safeLoop w a mod x 1).1 = (zzAddW w a x).1
+    ∧ (zzAddWMod_safeLoop w a mod x 1).2.1 = (zzAddW w a x).2
+    ∧ (zzAddWMod_safeLoop w a mod x 1).2.2
+        = (if val w mod ≤ val w (zzAddW w a x).1 then 1 else 0) := by
+  obtain ⟨_, _, _, h3, h4⟩ := zzAddW_spec w a x ha hx
+  rw [zzAddWMod_safeLoop_eq w a mod x 1 hl]
+  exact ⟨rfl, rfl, maskFold_one w mod _ hm h3 (hl.symm.trans h4.symm)⟩
+
+/-- first pass of SAFE(zzDoubleMod): `b + B^n carry = 2a`, mask = [mod ≤ b]. -/
+theorem zzDoubleMod_safeLoop_spec (w : Nat) (hw : 0 < w) (a mod : List Nat)
+    (ha : Wf w a) (hm : Wf w mod) (hl : a.length = mod.length) :
+    val w (zzDoubleMod_safeLoop w a mod 0 1).1
+        + 2 ^ (w * a.length) * (zzDoubleMod_safeLoop w a mod 0 1).2.1 = 2 * val w a
+    ∧ (zzDoubleMod_safeLoop w a mod 0 1).2.1 ≤ 1
+    ∧ (zzDoubleMod_safeLoop w a mod 0 1).2.2
+        = (if val w mod ≤ val w (zzDoubleMod_safeLoop w a mod 0 1).1 then 1 else 0) := by
+  obtain ⟨h1, h2, h3, h4⟩ := zzDoubleLoop_spec w hw a 0 ha (by omega)
+  rw [zzDoubleMod_safeLoop_eq w a mod 0 1 hl]
+  exact ⟨by simpa using h1, h2, maskFold_one w mod _ hm h3 (hl.symm.trans h4.symm)⟩
+
+example : zzAddMod_safeLoop 64 [2 ^ 64 - 3, 5] [7, 4] [2 ^ 64 - 1, 6] 0 1 = ([4, 10], 0, 1)
+    ∧ zzAddMod_safeLoop 64 [2 ^ 64 - 3, 5] [1, 1] [2 ^ 64 - 1, 6] 0 1 = ([2 ^ 64 - 2, 6], 0, 0)
+    ∧ zzDoubleMod_safeLoop 64 [2 ^ 63 + 1, 3] [5, 2 ^ 64 - 1] 0 1 = ([2, 7], 0, 0) := by decide
+
+/-- the loop invariant in its inductive form (any entry state `carry`, `mask` ∈ {0,1}):
+    on exit `mask' = 1` iff `mod < c`, or `mod = c` and the entry mask was 1
+    (little-endian comparison of the processed words). -/
+theorem zzAddMod_safeLoop_invariant (w : Nat) (a b mod : List Nat) (carry mask : Nat)
+    (ha : Wf w a) (hb : Wf w b) (hm : Wf w mod)
+    (hl1 : a.length = b.length) (hl2 : a.length = mod.length)
+    (hc : carry ≤ 1) (hk : mask ≤ 1) :
+    (zzAddMod_safeLoop w a b mod carry mask).2.2
+      = (if val w mod < val w (zzAddMod_safeLoop w a b mod carry mask).1 then 1
+         else if val w mod = val w (zzAddMod_safeLoop w a b mod carry mask).1 then mask else 0) := by
+  rw [zzAddMod_safeLoop_eq w a b mod carry mask hl1 hl2]
+  have h := loop2_add (fAdd_ok w) a b carry ha hb hl1 hc
+  rw [← zzAddLoop_eq] at h
+  obtain ⟨_, _, h3, h4⟩ := h
+  exact maskFold_spec w mod _ mask hk hm h3 (hl2.symm.trans h4.symm)
+
+example : (zzAddMod_safeLoop 64 [5, 1] [1, 1] [6, 2] 0 0).2.2 = 0
+    ∧ (zzAddMod_safeLoop 64 [5, 1] [1, 1] [6, 2] 0 1).2.2 = 1
+    ∧ (zzAddMod_safeLoop 64 [5, 1] [2, 1] [6, 2] 0 0).2.2 = 1 := by decide
+
 end Bee2V.C05
